@@ -253,13 +253,23 @@ func (w *schedWorld) userOp(tok []string) {
 
 // before is called by the proxies before every scheduler-side call; it runs the injections planned
 // for this call and returns the fault kind ("-", "fb", "fa") and whether a hook fault is requested.
+// before: the injections for the scheduler call about to happen. A core-level fault ("ca", see MarkAsDispatched) only
+// means something for MarkAsDispatched in the hook-timer configuration; elsewhere it is no fault.
 func (w *schedWorld) before() (fault string, hookFault bool) {
+	fault, hookFault = w.beforeAny()
+	if fault == "ca" {
+		fault = "-"
+	}
+	return fault, hookFault
+}
+
+func (w *schedWorld) beforeAny() (fault string, hookFault bool) {
 	w.callNo++
 	w.log("@call")
 	fault = "-"
 	for _, it := range w.inj[w.callNo] {
 		switch {
-		case it == "fb" || it == "fa":
+		case it == "fb" || it == "fa" || it == "ca":
 			fault = it
 		case it == "hf":
 			hookFault = true
@@ -349,8 +359,21 @@ func (p *schedProxy) GetNext(ctx context.Context) (def.Task, error) {
 	return t, nil
 }
 func (p *schedProxy) MarkAsDispatched(ctx context.Context, id string) error {
-	f, hf := p.w.before()
+	f, hf := p.w.beforeAny()
+	if f == "ca" && (p.w.cron != nil || p.w.core == nil) {
+		f = "-"
+	}
 	var err error
+	if f == "ca" {
+		// D21's trigger: the CORE repository applies the mark and reports an error; the wrapper returns it without
+		// calling its timer hook (model: SAct.markDispatchedCore)
+		p.w.core.markPlan = []string{"ca"}
+		err = p.w.target.MarkAsDispatched(ctx, id)
+		p.w.core.markPlan = nil
+		p.w.log(fmt.Sprintf("q markdispcore %s -> %s", proto.Str(id), proto.Res(err)))
+		p.w.stLine()
+		return err
+	}
 	switch f {
 	case "fb":
 		err = errTransient
@@ -1030,10 +1053,10 @@ func (g *schedGen) injections() string {
 		items = append(items, fmt.Sprintf("%d=u:%s", k, strings.ReplaceAll(g.userOp(), " ", ";")))
 	}
 	if g.faults > 0 && r.Chance(g.faults, 6) {
-		items = append(items, fmt.Sprintf("%d=%s", 1+r.Intn(5), rng.Pick(r, []string{"fb", "fa", "fb", "fa", "hf", "cx"})))
+		items = append(items, fmt.Sprintf("%d=%s", 1+r.Intn(5), rng.Pick(r, []string{"fb", "fa", "fb", "fa", "hf", "cx", "ca"})))
 	}
 	if g.faults > 1 && r.Chance(1, 6) {
-		items = append(items, fmt.Sprintf("%d=%s", 1+r.Intn(5), rng.Pick(r, []string{"fb", "fa", "hf"})))
+		items = append(items, fmt.Sprintf("%d=%s", 1+r.Intn(5), rng.Pick(r, []string{"fb", "fa", "hf", "ca"})))
 	}
 	if len(items) == 0 {
 		return ""
@@ -1120,6 +1143,9 @@ func cmdSched(args []string) {
 			}
 			if strings.HasPrefix(l, "work ") {
 				rep.Dist["work_started"]++
+			}
+			if strings.HasPrefix(l, "q markdispcore ") {
+				rep.Dist["core-level MarkAsDispatched faults (error after effect, hook not told)"]++
 			}
 		}
 	}
